@@ -328,6 +328,7 @@ type resCfg struct {
 	LowerIDs   bool // id interceptor: strings.ToLower
 	Equiv      bool // WithNoDuplicates-like equivalence on the flat fields
 	EquivNoV   bool // WithMessageEquivalence: messages that differ only in V are equivalent
+	EquivTolN  bool // with EquivNoV: N within 1 of each other also counts as equivalent (a tolerance: not transitive)
 	Initial    map[string]mm
 	HasInitial bool // Value: initial value present
 	InitialVal mm
@@ -367,6 +368,9 @@ func newRealResWith(cfg resCfg, clock *simClock, rng io.Reader) *realRes {
 			}
 			a, b := proto.Clone(x).(*testproto.TestAllTypes), proto.Clone(y).(*testproto.TestAllTypes)
 			a.DefaultInt32, b.DefaultInt32 = 0, 0
+			if d := a.DefaultInt64 - b.DefaultInt64; cfg.EquivTolN && d >= -1 && d <= 1 {
+				a.DefaultInt64, b.DefaultInt64 = 0, 0
+			}
 			return proto.Equal(a, b)
 		}))
 	}
